@@ -100,6 +100,10 @@ def cases(rng, tier):
                     for c2 in CURVES:
                         if c2 != crv and (tier != "quick" or zp is None):
                             out.append({"t": "rt_compact", "alg": alg, "enc": enc, "zip": zp, "crv": c2, "pt": b64e(pt), "apu": b64e(b"Alice"), "apv": b64e(b"Bob")})
+    # compression of large plaintexts (DEF has no size limit in RFC 7516)
+    for alg, enc in (("dir", "A128GCM"), ("A128KW", "A128CBC-HS256")):
+        out.append({"t": "rt_compact", "alg": alg, "enc": enc, "zip": "DEF", "crv": "P-256", "big": 300_000})
+        out.append({"t": "rt_compact", "alg": alg, "enc": enc, "zip": None, "crv": "P-256", "big": 300_000})
     # tampering, compact: every alg family × every enc (quick: one zip setting)
     for alg in ALGS:
         for enc in ENCS:
@@ -156,7 +160,7 @@ def _try(f):
 def run_rt_compact(c):
     alg, enc = c["alg"], c["enc"]
     ae, ad, re_, rd = key_for(alg, enc, c["crv"])
-    pt = b64d(c["pt"])
+    pt = (bytes(range(256)) * (c["big"] // 256 + 1))[:c["big"]] if c.get("big") else b64d(c["pt"])
     hdr = {"alg": alg, "enc": enc}
     if c["zip"]:
         hdr["zip"] = c["zip"]
@@ -173,6 +177,9 @@ def run_rt_compact(c):
     tok2 = R.encrypt_compact(dict(hdr), pt, re_)
     r = _try(lambda: jwe.deserialize_compact(tok2, ad))
     out["r2a"] = "ok" if "ok" in r and r["ok"]["payload"] == pt else r.get("error", "different")
+    tok3 = R.encrypt_compact(dict(hdr), pt, re_, spaced=True)          # same header, other JSON layout
+    r = _try(lambda: jwe.deserialize_compact(tok3, ad))
+    out["r2a_spaced"] = "ok" if "ok" in r and r["ok"]["payload"] == pt else r.get("error", "different")
     out["segments"] = [len(x) > 0 for x in tok.split(".")]
     return out
 
@@ -282,10 +289,11 @@ def run_json(c):
         out["ref_dec"].append("ok" if "ok" in r and r["ok"][1] == pt else r.get("error", "different"))
     # independent → authlib (key-wrapping algs; the reference puts the ephemeral key in the per-recipient header, which RFC 7516 allows)
     try:
-        robj = R.encrypt_json(prot, {k: v for k, v in unprot.items()}, [({"kid": f"r{i}"}, k[2]) for i, k in enumerate(ks)], aad, pt)
-        for i, k in enumerate(ks):
-            r = _try(lambda: jwe.deserialize_json(copy.deepcopy(robj), k[1]))
-            out.setdefault("r2a", []).append("ok" if "ok" in r and r["ok"]["payload"] == pt else r.get("error", "different"))
+        for spaced in (False, True):
+            robj = R.encrypt_json(prot, {k: v for k, v in unprot.items()}, [({"kid": f"r{i}"}, k[2]) for i, k in enumerate(ks)], aad, pt, spaced=spaced)
+            for i, k in enumerate(ks):
+                r = _try(lambda: jwe.deserialize_json(copy.deepcopy(robj), k[1]))
+                out.setdefault("r2a", []).append("ok" if "ok" in r and r["ok"]["payload"] == pt else r.get("error", "different"))
     except Exception as e:
         out["r2a"] = ["ref-error:" + type(e).__name__]
     # tampering as recipient 0 (and as the last recipient)
@@ -311,6 +319,14 @@ def run_json(c):
                 # the other recipients' entries are dropped so that no fallback can succeed with an untouched key
                 o["recipients"] = [o["recipients"][who]]
                 attempt(f"r{who}/encrypted_key:{mname}", o, ks[who][1])
+        # the same protected header re-serialized with another JSON layout: different octets, so the AAD differs
+        hj = json.loads(b64d(obj["protected"]))
+        o = copy.deepcopy(obj); o["protected"] = b64e(json.dumps(hj, sort_keys=True, indent=1).encode())
+        if o["protected"] != obj["protected"]:
+            attempt(f"r{who}/protected:reserialized", o, ks[who][1])
+        if aad is not None:
+            o = copy.deepcopy(obj); o["aad"] = obj["aad"] + "="          # same octets, other text
+            attempt(f"r{who}/aad:padded-text", o, ks[who][1])
         if aad is not None:
             o = copy.deepcopy(obj); del o["aad"]
             attempt(f"r{who}/aad:removed", o, ks[who][1])
@@ -551,7 +567,8 @@ def oracle(c, out):
         v.append((what, dict(sig, alg=c.get("alg"), enc=c.get("enc"))))
     t = c["t"]
     if t == "rt_compact":
-        for d, name in (("a2a", "authlib → authlib"), ("a2r", "authlib → independent implementation"), ("r2a", "independent implementation → authlib")):
+        for d, name in (("a2a", "authlib → authlib"), ("a2r", "authlib → independent implementation"), ("r2a", "independent implementation → authlib"),
+                        ("r2a_spaced", "independent implementation (header JSON laid out with spaces) → authlib")):
             if out[d] != "ok":
                 bad(f"round trip {name} failed for {c['alg']} / {c['enc']} / zip={c['zip']} / {c['crv']}: {out[d]}", kind="roundtrip", direction=d)
     elif t == "tamper_compact":
